@@ -11,7 +11,7 @@ def correspondence(ctx):
     corr = Corr()
     cases = []
     # custom classes: 10-character alphabet incl. contextual code points with and without a registered rule
-    alpha = [0x61, 0x6C, 0xB7, 0x200D, 0x200C, 0x94D, 0x628, 0x65E5, 0x20000, 0x41]
+    alpha = [0x61, 0x6C, 0xB7, 0x200D, 0x200C, 0x94D, 0x628, 0x65E5, 0x20000, 0x41, 0x661, 0x6F1, 0x30FB, 0x3042]
     maxlen = 3 if ctx.tier == 'quick' else 4
     labels = [s for s in all_strings(alpha, maxlen, 0)]
     nassign = 60 if ctx.tier == 'quick' else 400
@@ -23,7 +23,7 @@ def correspondence(ctx):
             cases.append(f'allows.custom|{dflt}|{assign}|{hexs(s)}')
     # every single-value assignment of the contextual characters on every label (exhaustive, small)
     for v in VALUES:
-        assign = ' '.join(f'{c:04X}={v}' for c in (0xB7, 0x200D, 0x200C, 0x41))
+        assign = ' '.join(f'{c:04X}={v}' for c in (0xB7, 0x200D, 0x200C, 0x41, 0x661, 0x30FB))
         for s in labels:
             cases.append(f'allows.custom|PValid|{assign}|{hexs(s)}')
     # the two standard classes: representatives of every derived-property value and of every rule
@@ -47,7 +47,7 @@ def correspondence(ctx):
         return (f[0], kind, pos, n) if n >= 2 else None
 
     evaluate(corr, res, nontrivial)
-    corr.rule = (f'allows() of a harness-defined StringClass under {nassign}+7 derived-property assignments over a 10-character alphabet (incl. middle dot, ZWJ, ZWNJ, virama, l, 3- and 4-byte characters) on labels of length <= {maxlen}; '
+    corr.rule = (f'allows() of a harness-defined StringClass under {nassign}+7 derived-property assignments over a 14-character alphabet (incl. middle dot, ZWJ, ZWNJ, virama, l, both Arabic digit kinds, katakana middle dot, Hiragana, 3- and 4-byte characters) on labels of length <= {maxlen}; '
                  'IdentifierClass/FreeformClass on all labels <= 3 over 13 representatives (every derived-property value, every contextual rule) and random longer labels. '
                  'distinct_nontrivial = distinct (operation, error kind, reported position, label length)')
     return corr
